@@ -1,7 +1,7 @@
 #!/bin/sh
 # tools/seedmatrix.sh : every seeded change against the check of its own property (quick tier); prints one summary line per seed
 cd /verif
-for d in seeded/C*; do
+for d in ${@:-seeded/C*}; do
   id=$(basename $d)
   out=$(tools/seedtest.sh $d/patch.diff $id 2>&1)
   n=$(echo "$out" | grep -c "^VIOLATION")
